@@ -4,7 +4,9 @@ import (
 	"fmt"
 	"math/big"
 	"math/bits"
+	"os"
 	"sort"
+	"strconv"
 	"strings"
 	"sync"
 
@@ -303,16 +305,38 @@ func subsetsOf(mask uint64) []uint64 {
 	return out
 }
 
+// errStr renders an error with its causes (errs-go keeps the causes behind Unwrap() []error; Error() is the
+// outermost message only).
 func errStr(err error) string {
 	if err == nil {
 		return "<nil>"
 	}
-	s := err.Error()
-	if i := strings.IndexByte(s, '\n'); i >= 0 {
-		s = s[:i]
+	var walk func(e error, depth int) string
+	walk = func(e error, depth int) string {
+		s := e.Error()
+		if i := strings.IndexByte(s, '\n'); i >= 0 {
+			s = s[:i]
+		}
+		if depth > 12 {
+			return s
+		}
+		switch u := e.(type) {
+		case interface{ Unwrap() []error }:
+			for _, c := range u.Unwrap() {
+				if c != nil {
+					s += " <- " + walk(c, depth+1)
+				}
+			}
+		case interface{ Unwrap() error }:
+			if c := u.Unwrap(); c != nil {
+				s += " <- " + walk(c, depth+1)
+			}
+		}
+		return s
 	}
-	if len(s) > 200 {
-		s = s[:200]
+	s := walk(err, 0)
+	if len(s) > 600 {
+		s = s[:600] + "…"
 	}
 	return s
 }
@@ -328,6 +352,76 @@ func errsString(m map[string]error) string {
 		fmt.Fprintf(&sb, "[%s: %s] ", k, errStr(m[k]))
 	}
 	return sb.String()
+}
+
+// once wraps an execution so that an inner loop reports every finding key ONCE per execution: the first instance in
+// full, plus the number of further cases of the same execution that raised the same key.
+type once struct {
+	*engine.X
+	order []string
+	first map[string]string
+	count map[string]int
+}
+
+func newOnce(x *engine.X) *once {
+	return &once{X: x, first: map[string]string{}, count: map[string]int{}}
+}
+
+func (o *once) Failf(key, format string, a ...any) {
+	if o.count[key] == 0 {
+		o.order = append(o.order, key)
+		o.first[key] = fmt.Sprintf(format, a...)
+	}
+	o.count[key]++
+}
+
+func (o *once) flush() {
+	for _, k := range o.order {
+		if n := o.count[k]; n > 1 {
+			o.X.Failf(k, "%s  [+ %d more case(s) of this execution with the same finding]", o.first[k], n-1)
+		} else {
+			o.X.Failf(k, "%s", o.first[k])
+		}
+	}
+	o.order = nil
+}
+
+// slot is the single, flattened choice point of a section: n leaves numbered 0..n-1. Under process sharding the
+// engine executes the top of the choice tree in EVERY worker process until the frontier of unexecuted prefixes is
+// 16 x wider than the number of processes; a space of fewer than 16*16+1 executions would therefore be executed
+// completely by each process. With pad the point gets empty slots (marked trivial, they cost nothing): slot 0 (the
+// root, which every process runs) and every slot > n are empty, slot i is leaf i-1, and consecutive slots go to
+// different processes.
+const padWidth = 16*16 + 2
+
+func slot(x *engine.X, n int, pad bool) (leaf int, ok bool) {
+	if !pad {
+		return x.Choose("leaf", n), true
+	}
+	total := n + 1
+	if total < padWidth {
+		total = padWidth
+	}
+	i := x.Choose("slot", total)
+	if i == 0 || i > n {
+		x.Trivial()
+		return 0, false
+	}
+	return i - 1, true
+}
+
+// capLeaves: debugging aid (C01_MAXLEAVES=n keeps every k-th leaf so that about n remain).
+func capLeaves[T any](ls []T) []T {
+	n, _ := strconv.Atoi(os.Getenv("C01_MAXLEAVES"))
+	if n <= 0 || len(ls) <= n {
+		return ls
+	}
+	step := len(ls) / n
+	var out []T
+	for i := 0; i < len(ls); i += step {
+		out = append(out, ls[i])
+	}
+	return out
 }
 
 // tally counts outcome classes across executions of a section (printed for the vacuity check).
